@@ -57,7 +57,7 @@ func (e EmptySet) Equal(i Value) bool {
 }
 
 func (e EmptySet) Hash(seed uintptr) uintptr {
-	return seed
+	return finishHash(0, seed)
 }
 
 func (e EmptySet) Eval(ctx context.Context, local Scope) (Value, error) {
